@@ -174,6 +174,19 @@ Definition stack {A B} (agg : list A -> B) (data : list A) (word : list Z) : lis
   let groups := uniq_sorted word in
   (map (fun g => agg (select word data g)) groups, map (fun g => count_eq g word) groups).
 
+(* stack = np.zeros((ntrs, ns), dtype=data.dtype); stack[sind, :] = fcn_agg(...):
+   the aggregate is CAST to the dtype of the data.  For integer data and the default
+   fcn_agg = np.nanmean the float mean is truncated towards zero (C cast). *)
+Fixpoint col_sums (ns : nat) (rows : list (list Z)) : list Z :=
+  match rows with
+  | [] => repeat 0 ns
+  | r :: rs => map (fun p => fst p + snd p) (combine r (col_sums ns rs))
+  end.
+Definition mean_trunc (ns : nat) (rows : list (list Z)) : list Z :=
+  map (fun s => Z.quot s (Z.of_nat (length rows))) (col_sums ns rows).
+Definition stack_int_mean (ns : nat) (data : list (list Z)) (word : list Z) : list (list Z) * list Z :=
+  stack (mean_trunc ns) data word.
+
 (* ------------------------------------------------------------------ *)
 (* 3. smooth.rolling_window, smooth.lp (index structure, any element type) *)
 (* ------------------------------------------------------------------ *)
@@ -303,6 +316,11 @@ Definition unfill (nc : nat) (entries : list Z) (t : list R) : list R :=
 Variable derank : list R -> list R.
 Definition denoise1 (entries : list Z) (w : list R) : list R :=
   unfill (length w) entries (derank (fill entries w)).
+(* for _ in np.arange(niter): ... WAV0 = WAV_.copy()    (WAV_ = zeros when niter = 0) *)
+Fixpoint denoise_iter (entries : list Z) (k : nat) (w : list R) : list R :=
+  match k with O => w | S k' => denoise_iter entries k' (denoise1 entries w) end.
+Definition denoise_n (entries : list Z) (niter : nat) (w : list R) : list R :=
+  match niter with O => map (fun _ => rO) w | _ => denoise_iter entries niter w end.
 End Field.
 
 (* ------------------------------------------------------------------ *)
